@@ -15,7 +15,10 @@ let probe_key = 9
 
 let run (id : string) (hdr : string list) (lines : string list list) (out : string -> unit) =
   let pr x = out (id ^ " " ^ x) in
+  let impl0 = try Hashtbl.find impl_lines id with Not_found -> [] in
   if kv_of hdr "kind" "prog" = "race" then pr "X race"
+  else if Stdlib.List.exists (function "NOTE" :: "ambiguous-timing" :: _ -> true | _ -> false) impl0 then
+    pr "X skipped"   (* the harness found no run of this case free of timing ambiguity *)
   else begin
     (* the times the harness noted for this run (NOTE scale / NOTE t lines of its output): the
        model's clock is moved to the noted instant before each line; limits are in scaled units *)
